@@ -1723,7 +1723,11 @@ class Translator:
                 return f'{pad}if {c} then\n{ta}\n{pad}else\n{tb}'
             vs = self.assigned(a + b, env)
             if not vs:
-                return k(env, ind)          # no effect in the subset (asserts only)
+                # no effect in the subset (asserts only) — the branches are still translated, so that a construct outside
+                # the subset in them is reported
+                self.stmts(a, dict(env), lambda env2, ind2: '()', ind + 2)
+                self.stmts(b, dict(env), lambda env2, ind2: '()', ind + 2)
+                return k(env, ind)
             tup = self.tuple_of(vs)
             fin = lambda env2, ind2: '  ' * ind2 + tup
             ta = self.stmts(a, dict(env), fin, ind + 2)
